@@ -201,6 +201,9 @@ def check(prop, tier, run: Run, replay_case=None):
     run.register_matcher("kf_glide", kf_glide)
     pre = prop + "."
     if replay_case is not None:
+        if replay_case.get("leg") == "T":
+            from . import trace_pipeline
+            return trace_pipeline.replay(run, replay_case)
         _init()
         out, _ = replay((replay_case["case"], replay_case["detail"]["emb"]))
         for clause, d in out:
@@ -242,5 +245,7 @@ def check(prop, tier, run: Run, replay_case=None):
     run.cov["distinct_nontrivial"] = len(nontriv)
     run.cov["rule"] = ("every multiset of <= MaxStreams lattice streams x every hot/cold ladder option enumerated by TLC; non-trivial = "
                        "more than one utility on a side carries duty, or the GCC has a pocket; distinct by (streams, ladders)")
+    from . import trace_pipeline
+    trace_pipeline.leg_t(run, prop, tier)
     if tier == "thorough":
         mutant_selftest(run)
